@@ -169,6 +169,19 @@ class C02Scenario(ChangeScenario):
                                                  f"t={t}: after the closing step last-handled is {last_handled(post)}, the handlers saw {cyc['last_ess']}",
                                                  clause='c', what='lh-value'))
                     cycles.pop(uid, None)
+        # (f) "a handler still due is invoked ... the cycle is closed (progress records removed)": nothing is left half-way.
+        # Judged when the world has been quiet for a long time, nothing is owed, and nothing disturbed the run.
+        t_last = max([t for t, k, p in env.obs if k in ('user', 'kill', 'start', 'extra')] + [0.0])
+        if not disturbed and not env.deviations and not env.owes() and env.end_reason == 'horizon' and env.now >= t_last + 25 \
+                and env.memo.get('pipeline') is not None:
+            for (ns, name), obj in env.world.objects[self.kind.key].items():
+                left = progress_records(obj, ids)
+                if left:
+                    due = [h for h, r in left.items() if not finished(r)]
+                    out.append(self.viol(env, 'cycle-never-closed',
+                                         f"object {name}: {env.now - t_last:.0f}s after the last external action it still carries the progress records "
+                                         f"{sorted(left)} (unfinished: {due}); handlers still due were never invoked / the cycle was never closed",
+                                         clause='c', what='left-forever'))
         return out
 
 
@@ -244,6 +257,8 @@ def scenarios(tier: str) -> tuple[list[C02Scenario], list[C02Scenario], list[C02
     for lc in ('asap', 'one_by_one'):
         handlers = [dict(id='c1', on='create', script=['ok']), dict(id='r1', on='resume', script=['ok']),
                     dict(id='r2', on='resume', script=['temp', 'ok']), dict(id='u1', on='update', script=['ok'])]
+        plain.append(C02Scenario(handlers=handlers, lifecycle=lc, user=base_user + [(10.0, 'restart')], settings=settings, horizon=45.0,
+                                 delays=False, early_user=False, time_dev=False))
         for edit in (('label', 'a', 'l', 'v'), ('spec', 'a', 2)):
             user = base_user + [(10.0, 'restart'), (11.0, *edit)]
             plain.append(C02Scenario(handlers=handlers, lifecycle=lc, user=user, settings=settings, horizon=40.0,
